@@ -394,6 +394,8 @@ fn create_pkg_length(len: usize, include_self: bool) -> Vec<u8> {
     };
 
     let length = len + if include_self { length_length } else { 0 };
+    // A PkgLength holds 28 bits at most.
+    assert!(length < 2usize.pow(28));
 
     match length_length {
         1 => result.push(length as u8),
